@@ -4,6 +4,9 @@
 //! answer  :  (sp <name> <bits>) [<lifted function in FIL>] <result>      (the function only for `mc`)
 //!            | nolift <err:kind|panic>                                    (`mc`: the translator declined)
 //! result  :  (ok (<loc> <T|B|isize>) ...) | err:<kind> | panic
+//!            followed, for `mc x86` / `mc amd64`, by (x86d (<addr> <operand description>) ...): capstone's decoding of
+//!            the bytes in the text form of harness/src/bin/c01/desc.rs, which the Lean x86 reference interpreter reads
+//!            (the MIPS, PowerPC and A64 interpreters decode the raw bytes of the request themselves)
 //! where the map is what `falcon::analysis::stack_pointer_offsets::stack_pointer_offsets(&function, &*arch)`
 //! returned for the architecture object `arch` (locations sorted; `T` = Top, `B` = Bottom, a number = Value(isize)),
 //! and `(sp ..)` is that architecture's own `stack_pointer()`.  `mc`: the bytes are placed at 0x1000 in a
@@ -22,6 +25,11 @@ use fvh::lift::{arch, bytes_hex, hex_bytes, options, ARCHS};
 use fvh::sx::parse_all;
 use fvh::{run_main, Emit, Rng, Tier};
 use std::collections::BTreeMap;
+
+// capstone's decoding of x86 instructions as the text the Lean x86 reference interpreter reads (C01's module, used as is)
+#[allow(dead_code)]
+#[path = "c01/desc.rs"]
+mod desc;
 
 // ---------------------------------------------------------------- answer
 
@@ -67,6 +75,26 @@ fn result_str(f: &Function, a: &dyn Architecture) -> String {
 }
 
 const BASE: u64 = 0x1000;
+
+/// `(x86d (<addr> <operand description>) ...)`: a linear sweep of the bytes with capstone (the generated functions
+/// are contiguous code), for the architectural witness run of the Lean x86 interpreter; stops at the first byte
+/// capstone does not decode
+fn x86_descs(amd64: bool, bytes: &[u8]) -> String {
+    let dec = desc::Decoder::new(amd64);
+    let mut out = String::from("(x86d");
+    let mut off = 0usize;
+    while off < bytes.len() {
+        match dec.decode(&bytes[off..], BASE + off as u64) {
+            Some(d) if d.len > 0 => {
+                out.push_str(&format!(" (0x{:x} {})", BASE + off as u64, d.text()));
+                off += d.len;
+            }
+            _ => break,
+        }
+    }
+    out.push(')');
+    out
+}
 
 fn lift(a: &dyn Architecture, bytes: &[u8]) -> Result<Function, String> {
     let mut mem = Memory::new(a.endian());
@@ -117,7 +145,14 @@ fn answer(req: &str) -> String {
             };
             match lift(&*a, &bytes) {
                 Err(e) => format!("nolift {}", e),
-                Ok(f) => format!("{} {} {}", sps, function_str(&f), result_str(&f, &*a)),
+                Ok(f) => {
+                    let x = match an {
+                        "x86" => format!(" {}", x86_descs(false, &bytes)),
+                        "amd64" => format!(" {}", x86_descs(true, &bytes)),
+                        _ => String::new(),
+                    };
+                    format!("{} {} {}{}", sps, function_str(&f), result_str(&f, &*a), x)
+                }
             }
         }
         _ => "bad-request".into(),
